@@ -315,8 +315,9 @@ class C05(vlib.Driver):
         if style < 0.9:
             base = rng.randint(50, 3000)
             return rng.sample(range(base, base + 3 * n + 3), n)
-        ix = sorted(rng.sample(range(-20, 60), n), reverse=True)      # descending: the largest index comes first
-        return ix
+        if style < 0.97:
+            return sorted(rng.sample(range(-20, 60), n), reverse=True)    # descending: the largest index comes first
+        return [2 ** 40 + i for i in rng.sample(range(0, 5 * n), n)]      # beyond int32
 
     def generate(self, tier, rng):
         cases = []
@@ -339,7 +340,7 @@ class C05(vlib.Driver):
                                       "pop": [{"index": 3 * i + 1, "fitness": f} for i, f in enumerate(fits)],
                                       "gens": [{"draws": [list(x) for x in tuples] + self.gen_draws(rng, n, t, 2), "newfit": []}]})
         # B. seeded single selections on real DQN agents
-        nb = 80 if quick else 200
+        nb = 60 if quick else 200
         for _ in range(nb):
             n = rng.choice([1, 2, 2, 3, 3, 4, 5, 6, 8]) if quick else rng.choice([1, 2, 3, 4, 5, 6, 8, 10, 12])
             p = rng.choice([1, 2, 3, n, n, n, n + 1, 8]) if quick else rng.choice([1, 2, n, n, n + 2, 12])
@@ -417,7 +418,8 @@ class C05(vlib.Driver):
         # E'. near-ties: windows whose exact means are equal or 1 ulp apart while the float64 means may differ
         #     (order of summation): ranked by the scores the code actually computed
         near = [[0.1, 0.2, 0.3], [0.3, 0.2, 0.1], [0.2, 0.2, 0.2], [0.3, 0.1, 0.2], [0.1, 0.1, 0.4], [0.6 / 3, 0.2, 0.2],
-                [0.2, 0.2, float(np.nextafter(0.2, 1))], [0.7, 0.1, -0.2], [0.7, -0.2, 0.1]]
+                [0.2, 0.2, float(np.nextafter(0.2, 1))], [0.7, 0.1, -0.2], [0.7, -0.2, 0.1],
+                [-1e9, -1e9 + 1.0, -1e9], [1e17, 1e17, 1e17 + 32.0], [1e17 + 16.0, 1e17, 1e17 + 16.0], [1e-300, 2e-300, 3e-300]]   # extreme but legal magnitudes
         # (catastrophic cancellation such as [1e16, 1.0, -1e16], float mean 0.0 vs exact 1/3, is outside the claim:
         #  observed scores are accepted only within relative 2^-40 of the exact window mean)
         for rep in range(12 if quick else 60):
@@ -433,7 +435,7 @@ class C05(vlib.Driver):
         #    with its own index range (higher, lower, overlapping), the very same population selected twice in a row,
         #    a raising call (empty population) followed by further use.  Boundary-complete over elitism x where the
         #    fittest agent's index falls relative to what the selector handed out before.
-        for kind in (["lite", "lite", "dqn", "rsnorm"] if quick else ["lite"] * 6 + ["dqn", "rsnorm", "ucb", "ddpg"]):
+        for kind in (["lite", "dqn", "rsnorm"] if quick else ["lite"] * 6 + ["dqn", "rsnorm", "ucb", "ddpg"]):
             for elit in (True, False):
                 n = p = 4
                 t, w = 2, rng.randint(1, 2)
@@ -448,6 +450,8 @@ class C05(vlib.Driver):
                              {"inject": [{"pos": rng.randrange(n), "index": top + off, "fitness": [50.0] * w}],
                               "draws": self.gen_draws(rng, n, t, p + 2), "newfit": [[1.0]] * p},
                              {"draws": self.gen_draws(rng, n, t, p + 2), "newfit": []}]}
+                    if off == p - 1:
+                        c["itype"] = "np"            # indices that came out of numpy (np.int64)
                     cases.append(c)
                     if kind != "lite":
                         break
@@ -585,7 +589,7 @@ class C05(vlib.Driver):
         for i, a in enumerate(case["pop"]):
             fit = [self.as_type(x, case.get("ftype", "float")) for x in a["fitness"]]
             if case["kind"] == "lite":
-                ag = LiteAgent(a["index"], fit, i, [float(i), 0.5])
+                ag = LiteAgent(np.int64(a["index"]) if case.get("itype") == "np" else a["index"], fit, i, [float(i), 0.5])
             else:
                 ag = self.pool_agent(case["kind"], i)
                 if case.get("reload"):
@@ -595,7 +599,7 @@ class C05(vlib.Driver):
                     path = str(d / f"{case['kind']}_{i}.pt")
                     ag.save_checkpoint(path)
                     ag = type(ag).load(path)
-                ag.index = a["index"]
+                ag.index = np.int64(a["index"]) if case.get("itype") == "np" else a["index"]
                 ag.fitness = fit
                 setattr(ag, TAG, i)
             pop.append(ag)
